@@ -103,7 +103,7 @@ func NewWorld(ex *Exec) *World {
 		ergoPath + ".stdoutIsTTY": func(ex *Exec, c *callCtx) Value { return ex.nondet("world.stdoutIsTTY", "bool") },
 		ergoPath + ".getTerminalWidth": func(ex *Exec, c *callCtx) Value { return ex.nondet("world.termWidth", "int") },
 		ergoPath + ".ParseTaskInput": w.mParseTaskInput,
-		ergoPath + ".readBodyFromStdinOrEmpty": w.mReadBody,
+		"io.ReadAll": w.mReadBody, // the real readBodyFromStdinOrEmpty runs over this: stdin yields the scenario's text
 		ergoPath + ".validateResultPath": w.mValidateResultPath,
 		ergoPath + ".captureResultEvidence": w.mCaptureEvidence,
 		ergoPath + ".deriveFileURL": func(ex *Exec, c *callCtx) Value {
@@ -580,7 +580,7 @@ func (w *World) mParseTaskInput(ex *Exec, c *callCtx) Value {
 
 func (w *World) mReadBody(ex *Exec, c *callCtx) Value {
 	if w.stdinText == nil {
-		panic(unsupported("readBodyFromStdinOrEmpty without zzStdinText"))
+		panic(unsupported("io.ReadAll(os.Stdin) without zzStdinText"))
 	}
 	return TupleV{E: []Value{w.stdinText, NilRef()}}
 }
